@@ -95,14 +95,24 @@ def observe(counts, groups_text, handler_level):
     base.addHandler(counter)
     lg = StyleAdapter(TypeAdapter(base))
     order = sorted(counts.items(), key=lambda kv: harness.h(kv[0]))
-    for (lvl, t), n in order:
-        for i in range(n):
-            if t is None:
-                lg.log(lvl, 'record {} of default type', i)
-            else:
-                lg.log(lvl, 'record {} of {}', i, t, type=t)
+    # the order in which the types are first logged varies with the case; one case in three interleaves the records
+    import random
+    r = random.Random(harness.h([sorted((str(k), v) for k, v in counts.items()), groups_text]))
+    r.shuffle(order)
+    records = [(lvl, t, i) for (lvl, t), n in order for i in range(n)]
+    if r.random() < 0.33:
+        r.shuffle(records)
+    for lvl, t, i in records:
+        if t is None:
+            lg.log(lvl, 'record {} of default type', i)
+        else:
+            lg.log(lvl, 'record {} of {}', i, t, type=t)
     parsed = [[cli.maxwarn(tok) for tok in g] for g in groups_text]
     left = ignore_warnings_and_count(counter, parsed)
+    # the function is asked again on the same handler and the same specifications: it must not have consumed anything
+    again = ignore_warnings_and_count(counter, [[tuple(x) if isinstance(x, list) else x for x in g] for g in parsed])
+    if again != left:
+        left = ('second-call-differs', left, again)
     base.removeHandler(counter)
     logging.Logger.manager.loggerDict.pop(base.name, None)
     return left, parsed, counter
@@ -122,6 +132,9 @@ def check_one(counts, groups_text, handler_level=logging.WARNING):
             continue  # the handler never sees it; at WARNING these are irrelevant to the statement anyway
         k = (lvl, 'general' if t is None else t)
         norm[k] = norm.get(k, 0) + n
+    if isinstance(left, tuple):
+        return False, {'kind': 'history', 'first_call': left[1], 'second_call_same_arguments': left[2], 'specs': groups_text,
+                       'counts': {'%s/%s' % k: v for k, v in norm.items()}}, False, feats, 'history/second-call-differs'
     lo, hi = reference(norm, exp_parsed)
     if lo != hi:
         feats['unspecified_combination'] = 1
